@@ -198,6 +198,16 @@ fn run_sdk_exit(input: &Value) -> Option<Value> {
         (Err(e), None) => e.to_string().contains("Line: 4"),
         _ => true,
     };
+    // a value that is an integer once the white space around it is dropped: the statement does not say whether that is
+    // "an integer"; both readings are accepted (ends the run there, failing exactly when not zero / an error of the line)
+    if code.is_none() {
+        if let Ok(c) = v.trim().parse::<i32>() {
+            let ended_there = match &r { Ok(ctx) => !ctx.variables.contains_key("b"), Err(e) => e.to_string().contains("Line: 2") };
+            if ended_there && ok == (c == 0) {
+                return None;
+            }
+        }
+    }
     if ok != want_ok || b != want_b || !line_ok {
         return Some(json!({"script": script, "what": "exit with an integer ends the run at that line (failing exactly when the integer is not zero); any other text is an error of the line and the run goes on", "expected_success": want_ok, "got_success": ok, "error": r.err().map(|e| e.to_string())}));
     }
